@@ -141,9 +141,13 @@ TraceAccepted ==
 
 (* The properties along the trace, as reporting predicates (always TRUE): a
    violated one prints the line being consumed instead of a counterexample
-   (which, for concatenated histories, would be the whole file again). *)
-ReportFresh     == Fresh \/ PrintT("@@BAD " \o ToJson([inv |-> "Fresh", l |-> l]))
-ReportCrashSafe == CrashSafe \/ PrintT("@@BAD " \o ToJson([inv |-> "CrashSafe", l |-> l]))
+   (which, for concatenated histories, would be the whole file again).
+   They judge the returns that were observed: while TLC looks for the step at
+   which a `wfail` event failed it also visits returns of the same call that
+   did not happen; those are states of the model, not of the recorded run. *)
+ObservedReturn == pc = "done" /\ Is("build") /\ NowFS /\ NowTouched
+ReportFresh     == (ObservedReturn /\ ~Returned) => PrintT("@@BAD " \o ToJson([inv |-> "Fresh", l |-> l]))
+ReportCrashSafe == (ObservedReturn /\ ~Returned) => PrintT("@@BAD " \o ToJson([inv |-> "CrashSafe", l |-> l]))
 
 (* last matched state, for the rejection report (always TRUE) *)
 ReportState == (l = TLCGet(1)) =>
